@@ -220,4 +220,210 @@ Proof.
       * exists S'. split; [apply n_loop_mono; exact H1|exact H2].
 Qed.
 
+
+(* ---------------- the initial phase ---------------- *)
+(* queue transformers that only add entries later than t commute with a prefix
+   of entries at or before t *)
+Definition pfx (t : Q) (F : queue nev -> queue nev) : Prop :=
+  forall P l c, Forall (fun p : qent nev => qtime p <= t) P ->
+    F (mkQ (P ++ l) c) = mkQ (P ++ q_items (F (mkQ l c))) (q_ctr (F (mkQ l c))).
+
+Lemma pfx_id : forall t, pfx t (fun q => q).
+Proof. intros t P l c _. reflexivity. Qed.
+Lemma pfx_comp : forall t F G, pfx t F -> pfx t G -> pfx t (fun q => G (F q)).
+Proof.
+  intros t F G HF HG P l c HP. rewrite (HF P l c HP). rewrite (HG P _ _ HP).
+  destruct (F (mkQ l c)) as [l1 c1]. reflexivity.
+Qed.
+Lemma pfx_ext : forall t F G, (forall q, F q = G q) -> pfx t G -> pfx t F.
+Proof. intros t F G E HG P l c HP. rewrite !E. apply HG. exact HP. Qed.
+Lemma pfx_add : forall t x e, (xlt x tmax = true -> t < x) -> pfx t (fun q => q_add tmax q x e).
+Proof.
+  intros t x e Hx P l c HP. unfold q_add. cbn [q_items q_ctr]. destruct (xlt x tmax) eqn:V; cbn [q_items q_ctr]; [|reflexivity].
+  rewrite qins_prefix; [reflexivity|]. eapply Forall_impl; [|exact HP]. intros p Hp. cbn beta in Hp.
+  cbn [qtime fst]. specialize (Hx eq_refl). lra.
+Qed.
+Lemma pfx_chain : forall t src v tt,
+  (forall x, In x tt -> xlt x tmax = true -> t < x) -> pfx t (fun q => chain tmax q src v tt).
+Proof.
+  intros t src v [|h tl] H; cbn [chain]; [apply pfx_id|]. apply pfx_add. apply H. left. reflexivity.
+Qed.
+Lemma pfx_fold : forall t (G : queue nev -> node -> queue nev) ws,
+  (forall w, In w ws -> pfx t (fun q => G q w)) -> pfx t (fun q => fold_left G ws q).
+Proof.
+  intros t G ws. induction ws as [|w ws IH]; intro H; cbn [fold_left]; [apply pfx_id|].
+  apply (pfx_comp t (fun q => G q w) (fun q => fold_left G ws q)).
+  - apply H. left. reflexivity.
+  - apply IH. intros w' Hw'. apply H. right. exact Hw'.
+Qed.
+
+Lemma set_items_fields : forall S l,
+  ns_stat (set_items S l) = ns_stat S /\ ns_rec (set_items S l) = ns_rec S /\
+  ns_ord (set_items S l) = ns_ord S /\ ns_log (set_items S l) = ns_log S.
+Proof. intros. unfold set_items. cbn. tauto. Qed.
+
+Lemma n_trans_init_prefix : forall t v S P l,
+  ns_stat S v = stS ->
+  Forall (fun p : qent nev => qtime p <= t) P ->
+  (let k := ns_ord S v in
+   (xlt (tadd t (dur v k)) tmax = true -> t < tadd t (dur v k)) /\
+   forall w d, In w (gadj g v) -> In d (delays v w k) -> xlt (tadd t d) tmax = true -> t < tadd t d) ->
+  let S1 := n_trans g dur delays tmax t None v [] (set_items S l) in
+  n_trans g dur delays tmax t None v [] (set_items S (P ++ l)) = set_items S1 (P ++ q_items (ns_q S1)).
+Proof.
+  intros t v S P l HvS HP [Hrt Hd] S1. subst S1.
+  rewrite !n_trans_S by (cbn [set_items ns_stat]; exact HvS). cbv zeta.
+  cbn [set_items ns_stat ns_rec ns_ord ns_log ns_q filter chain q_ctr q_items].
+  set (k := ns_ord S v) in *. set (rt := tadd t (dur v k)) in *.
+  set (stat' := fupdN (ns_stat S) v stI). set (rec' := fupdN (ns_rec S) v rt).
+  set (F := fun q : queue nev => fold_left (n_sched delays tmax t v k stat' rec') (gadj g v)
+                                   (if xlt rt tmax then q_add tmax q rt (NRec v) else q)).
+  assert (HF : pfx t F).
+  { unfold F. apply (pfx_comp t (fun q => if xlt rt tmax then q_add tmax q rt (NRec v) else q)
+                                (fun q => fold_left (n_sched delays tmax t v k stat' rec') (gadj g v) q)).
+    - destruct (xlt rt tmax) eqn:V; [|apply pfx_id]. apply pfx_add. intros _. apply Hrt. reflexivity.
+    - apply pfx_fold. intros w Hw.
+      apply (pfx_ext t _ (fun q => chain tmax q (Some v) w (keptw delays t v k stat' rec' w))).
+      { intro q. apply n_sched_eq. }
+      apply pfx_chain. intros x Hx Vx. unfold keptw, allw in Hx.
+      assert (Hx' : In x (map (fun d => tadd t d) (delays v w k))).
+      { destruct (N.eqb (stat' w) stI); [apply filter_In in Hx; tauto|exact Hx]. }
+      apply in_map_iff in Hx'. destruct Hx' as [d [<- Hdin]]. apply (Hd w d Hw Hdin Vx). }
+  change (fold_left (n_sched delays tmax t v k stat' rec') (gadj g v)
+            (if xlt rt tmax then q_add tmax (mkQ (P ++ l) (q_ctr (ns_q S))) rt (NRec v) else mkQ (P ++ l) (q_ctr (ns_q S))))
+    with (F (mkQ (P ++ l) (q_ctr (ns_q S)))).
+  change (fold_left (n_sched delays tmax t v k stat' rec') (gadj g v)
+            (if xlt rt tmax then q_add tmax (mkQ l (q_ctr (ns_q S))) rt (NRec v) else mkQ l (q_ctr (ns_q S))))
+    with (F (mkQ l (q_ctr (ns_q S)))).
+  rewrite (HF P l _ HP). reflexivity.
+Qed.
+
+
+Fixpoint initq (tmin : Q) (c : nat) (l : list node) : list (qent nev) :=
+  match l with
+  | [] => []
+  | u :: l' => (tmin, c, NTrans None u []) :: initq tmin (S c) l'
+  end.
+
+Lemma qins_end : forall (x : qent nev) P, Forall (fun p => qbefore x p = false) P -> qins x P = P ++ [x].
+Proof.
+  intros x P F. induction F as [|p P Hp F IH]; [reflexivity|]. cbn [qins app]. rewrite Hp, IH. reflexivity.
+Qed.
+
+Lemma init_queue : forall tmin l P c,
+  xlt tmin tmax = true ->
+  Forall (fun p : qent nev => qtime p = tmin /\ (qctr p < c)%nat) P ->
+  q_items (fold_left (fun q u => q_add tmax q tmin (NTrans None u [])) l (mkQ P c)) = P ++ initq tmin c l.
+Proof.
+  intros tmin l. induction l as [|u l IH]; intros P c V HP; cbn [fold_left initq q_items]; [rewrite app_nil_r; reflexivity|].
+  unfold q_add at 2. rewrite V. cbn [q_items q_ctr]. rewrite qins_end.
+  - rewrite IH; [rewrite <- app_assoc; reflexivity|exact V|].
+    apply Forall_app. split.
+    + eapply Forall_impl; [|exact HP]. intros p [H1 H2]. split; [exact H1|lia].
+    + constructor; [|constructor]. cbn [qtime qctr fst snd]. split; [reflexivity|lia].
+  - eapply Forall_impl; [|exact HP]. intros p [H1 H2]. unfold qbefore. cbn [qtime qctr fst snd].
+    fold (qtime p). fold (qctr p). rewrite H1.
+    assert (Qltb tmin tmin = false) as -> by (apply Qltb_false; lra).
+    assert (Nat.ltb c (qctr p) = false) as -> by (apply Nat.ltb_ge; lia).
+    rewrite andb_false_r. reflexivity.
+Qed.
+
+Definition r_init_step (tmin : Q) (s : rst) (u : node) : rst :=
+  if N.eqb (r_stat s u) stS then r_infect g dur delays tmax tmin None u s
+  else mkR (r_stat s) (r_ord s) (r_ag s) (r_log s) false.
+
+Lemma r_infect_ok_mono : forall t src v s, r_ok (r_infect g dur delays tmax t src v s) = true -> r_ok s = true.
+Proof.
+  intros t src v s H. rewrite r_infect_unfold in H.
+  assert (K : forall ws s1, r_ok (fold_left (r_sched delays tmax t v (r_ord s v)) ws s1) = true -> r_ok s1 = true).
+  { induction ws as [|w' ws IH]; intros s2 H2; [exact H2|].
+    cbn [fold_left] in H2. apply IH in H2. unfold r_sched in H2.
+    apply (r_insert_fold_ok_mono tmax t (fun d => (tadd t d, AAtt v w')) (delays v w' (r_ord s v))) in H2. cbn [r_ok] in H2.
+    apply andb_prop in H2. tauto. }
+  apply K in H. apply r_insert_ok_mono in H. exact H.
+Qed.
+
+Lemma r_init_fold_ok_mono : forall tmin l s, r_ok (fold_left (r_init_step tmin) l s) = true -> r_ok s = true.
+Proof.
+  intros tmin l. induction l as [|u l IH]; intros s H; [exact H|]. cbn [fold_left] in H. apply IH in H.
+  unfold r_init_step in H. destruct (N.eqb (r_stat s u) stS); [|discriminate H].
+  apply r_infect_ok_mono in H. exact H.
+Qed.
+
+Lemma set_items_self : forall S, set_items S (q_items (ns_q S)) = S.
+Proof. intros [st rc od [it ct] lg]. reflexivity. Qed.
+Lemma set_items_twice : forall S l l', set_items (set_items S l) l' = set_items S l'.
+Proof. intros. reflexivity. Qed.
+
+Lemma phase1 : forall tmin l c S qm R,
+  q_items (ns_q S) = initq tmin c l ++ qm ->
+  Rel tmin (set_items S qm) R ->
+  r_ok (fold_left (r_init_step tmin) l R) = true ->
+  exists S1, (forall f, nloop (length l + f) S = nloop f S1) /\ Rel tmin S1 (fold_left (r_init_step tmin) l R).
+Proof.
+  intros tmin l. induction l as [|u l IH]; intros c S qm R Eq HR Hok.
+  - cbn [initq app] in Eq. exists S. split; [reflexivity|]. cbn [fold_left]. rewrite <- Eq, set_items_self in HR. exact HR.
+  - cbn [fold_left] in *. cbn [initq app] in Eq.
+    pose proof (r_init_fold_ok_mono tmin l _ Hok) as Hok1.
+    unfold r_init_step at 2 in Hok. unfold r_init_step at 2. unfold r_init_step in Hok1.
+    destruct HR as [Hst Hord Hlog [dead [Hp Hd]] Hq Hrec Hinv Hbin].
+    cbn [set_items ns_stat ns_rec ns_ord ns_log ns_q q_items] in *.
+    destruct (N.eqb_spec (r_stat R u) stS) as [EuS|EuS]; [|discriminate Hok1].
+    assert (HvS : ns_stat S u = stS) by (rewrite Hst; exact EuS).
+    set (S1' := n_trans g dur delays tmax tmin None u [] (set_items S qm)).
+    assert (HR1 : Rel tmin S1' (r_infect g dur delays tmax tmin None u R)).
+    { apply (infect_rel g dur delays tmax tmin None u [] (set_items S qm) R dead);
+        cbn [set_items ns_stat ns_rec ns_ord ns_log ns_q q_items]; try assumption; try reflexivity. }
+    destruct (r_infect_spec g dur delays tmax tmin None u R Hinv Hok1) as [_ [_ [[_ Hgt] [HpA _]]]].
+    rewrite <- (Hord u) in HpA.
+    assert (Hcond : let k := ns_ord S u in
+       (xlt (tadd tmin (dur u k)) tmax = true -> tmin < tadd tmin (dur u k)) /\
+       forall w d, In w (gadj g u) -> In d (delays u w k) -> xlt (tadd tmin d) tmax = true -> tmin < tadd tmin d).
+    { cbv zeta. rewrite Forall_forall in Hgt. split.
+      - intro V. apply (Hgt (tadd tmin (dur u (ns_ord S u)), ARec u)).
+        eapply Permutation_in; [apply Permutation_sym; exact HpA|]. apply in_or_app. right. apply in_or_app. left.
+        unfold EventSISP.vis1. apply in_vis. split; [left; reflexivity|exact V].
+      - intros w d Hw Hdin V. apply (Hgt (tadd tmin d, AAtt u w)).
+        eapply Permutation_in; [apply Permutation_sym; exact HpA|]. apply in_or_app. left. apply in_vis.
+        split; [|exact V]. unfold EventSISP.new_atts. apply in_flat_map. exists w. split; [exact Hw|].
+        unfold atts. apply in_map_iff. exists (tadd tmin d). split; [reflexivity|]. apply in_map_iff. exists d. split; [reflexivity|exact Hdin]. }
+    assert (HP : Forall (fun p : qent nev => qtime p <= tmin) (initq tmin (Datatypes.S c) l)).
+    { clear. generalize (Datatypes.S c). induction l as [|x l IH]; intro n; cbn [initq]; constructor; [cbn [qtime fst]; lra|apply IH]. }
+    pose proof (n_trans_init_prefix tmin u S (initq tmin (Datatypes.S c) l) qm HvS HP Hcond) as Hpre. cbv zeta in Hpre. fold S1' in Hpre.
+    set (Snext := set_items S1' (initq tmin (Datatypes.S c) l ++ q_items (ns_q S1'))) in *.
+    destruct (IH (Datatypes.S c) Snext (q_items (ns_q S1')) (r_infect g dur delays tmax tmin None u R)) as [S2 [H1 H2]].
+    + reflexivity.
+    + unfold Snext. rewrite set_items_twice, set_items_self. exact HR1.
+    + exact Hok.
+    + exists S2. split; [|exact H2]. intro f. rewrite <- H1.
+      change (length (u :: l) + f)%nat with (Datatypes.S (length l + f)). cbn [n_loop]. rewrite Eq.
+      cbn [n_event]. fold (set_items S (initq tmin (Datatypes.S c) l ++ qm)). rewrite Hpre. reflexivity.
+Qed.
+
+(* ---------------- C13: refinement ---------------- *)
+Theorem nmsis_refines : forall tmin full fuel i0 out,
+  xlt tmin tmax = true ->
+  ref_sis g dur delays tmax tmin full fuel i0 = Ok (out, true) ->
+  nm_run g dur delays tmax tmin full (length i0 + fuel) i0 = Ok out.
+Proof.
+  intros tmin full fuel i0 out V H. unfold ref_sis in H. unfold nm_run.
+  destruct (r_loop g dur delays tmax fuel (r_init g dur delays tmax tmin i0)) as [R'|e] eqn:El; [|discriminate H].
+  cbn [rbind] in H. injection H as <- Hok.
+  change (r_init g dur delays tmax tmin i0)
+    with (fold_left (r_init_step tmin) i0 (mkR (fun _ => stS) (fun _ => O) [] (logs0 g tmin) true)) in El.
+  set (Re := mkR (fun _ => stS) (fun _ => O) [] (logs0 g tmin) true) in *.
+  pose proof (r_loop_ok_mono g dur delays tmax fuel _ _ El Hok) as Hok1.
+  destruct (phase1 tmin i0 0 (n_init g tmax tmin i0) [] Re) as [S1 [H1 H2]].
+  - rewrite app_nil_r. unfold n_init. cbn [ns_q]. unfold q_empty. rewrite init_queue; [reflexivity|exact V|constructor].
+  - constructor; cbn [set_items n_init ns_stat ns_rec ns_ord ns_log ns_q q_items Re r_stat r_ord r_log r_ag]; try reflexivity.
+    + exists []. split; [constructor|constructor].
+    + split; constructor.
+    + intros v Hv. discriminate Hv.
+    + split; constructor.
+    + intro x. left. reflexivity.
+  - exact Hok1.
+  - destruct (sim_main fuel S1 _ tmin R' H2 El Hok) as [S' [K1 K2]].
+    rewrite H1, K1. cbn [rbind]. rewrite K2. reflexivity.
+Qed.
+
 End NM3.
